@@ -157,6 +157,16 @@ Theorem monitor_sound_reuse :
 Proof. exact reuse_sound. Qed.
 Print Assumptions monitor_sound_reuse.
 
+(* Forms-only cases (degenerate option values such as 0, outside the reference semantics' class):
+   the monitor accepts exactly when the direct, decorator-with-options and class forms produced the
+   same trace (and no batch-function call landed on a foreign loop). *)
+Theorem monitor_forms_only :
+  (forall d1 d2 d3, ok (CFormsBuf d1 d2 d3) = true -> same_flushes d1 d2 /\ same_flushes d3 d2) /\
+  (forall d1 d2 d3 cross, ok (CFormsBat d1 d2 d3 cross) = true <-> d1 = d2 /\ d3 = d2 /\ cross = 0) /\
+  (forall m, ok (CFormsBuf m m m) = true).
+Proof. exact forms_only. Qed.
+Print Assumptions monitor_forms_only.
+
 (* ---- the small reference semantics against the full component models ------------ *)
 
 (* BUFFER.  For EVERY timeout and EVERY script of submissions and pauses: run the full buffer
